@@ -2,7 +2,9 @@
 (***************************************************************************)
 (* C->S binding for C06: reports recorded from the real Differ on seeded   *)
 (* random pairs are judged by the specification.  A record is              *)
-(*   [id, l, r, arrays, aoh, crash, es]   es = the entries of get_report() *)
+(*   [id, l, r, arrays, aoh, rules, keys, crash, es]   (rules / keys: the   *)
+(* per-path configuration, [p, v] with p as step records)  es = the       *)
+(* entries of get_report()                                                  *)
 (* as valued entries [a, p, lv, rv] (tables of the values the entry        *)
 (* carries; Python's None recorded as the null value).  For every record   *)
 (* the clauses of the statement (YDiff.Verdict - the very operators that   *)
@@ -20,7 +22,7 @@ Recs == JsonDeserialize(IOEnv.RECORDS_IN)
 
 AP(es) == [k \in 1..Len(es) |-> [a |-> es[k].a, p |-> es[k].p]]
 Judge(rc) ==
-  LET cfg == [arrays |-> rc.arrays, aoh |-> rc.aoh, fixed |-> Repaired]
+  LET cfg == [arrays |-> rc.arrays, aoh |-> rc.aoh, rules |-> rc.rules, keys |-> rc.keys, fixed |-> Repaired]
       df == Diff(rc.l, rc.r, cfg)
       v == Verdict(rc.es, rc.l, rc.r, cfg)
       mv == IF df.crash THEN [truthful |-> FALSE, covers |-> FALSE, accounted |-> FALSE, nochange |-> FALSE, expect |-> v.expect]
